@@ -843,7 +843,8 @@ def tensor_index(I, t: Tensor, key):
             out_shape.append(1)
         elif p[0] == "sl":
             out_shape.append(len(p[2]))
-    data = []
+    data, offsets = [], []
+    st = t.strides()
     for oidx in iter_idx(tuple(out_shape)):
         src = [0] * t.ndim
         o = 0
@@ -856,9 +857,12 @@ def tensor_index(I, t: Tensor, key):
             else:
                 src[p[1]] = p[2]
         data.append(t.get(src))
+        offsets.append(sum(i * s_ for i, s_ in zip(src, st)))
     if not out_shape:
         return data[0]
-    return Tensor(tuple(out_shape), data, t.dtype)
+    if not any(isinstance(k, (list, Tensor)) for k in key):
+        return Tensor.view(t, offsets, tuple(out_shape))        # basic indexing (ints, slices, newaxis): numpy returns a VIEW
+    return Tensor(tuple(out_shape), data, t.dtype)              # advanced indexing: a copy
 
 
 def _mask_to_indices(k):
@@ -906,6 +910,8 @@ def tensor_setitem(I, t: Tensor, key, value):
         sel.append((list(range(t.shape[ax])), True))
     out_shape = tuple(len(s) for s, keep in sel if keep)
     tv = value if isinstance(value, Tensor) else (Tensor.fromlist(value) if isinstance(value, list) else Tensor((), [value]))
+    if tv.is_view():
+        tv = tv.copy()               # numpy assigns as if the right-hand side had been copied first (overlapping views)
     bshape = broadcast_shapes(out_shape, tv.shape)
     if bshape != out_shape:
         raise PyExc("ValueError", ("could not broadcast input array",))
